@@ -313,3 +313,36 @@ async fn standin_scheme_never_plain() {
         }
     }
 }
+
+
+/// tls.sni_is_host across connects [C12]: one transport (and its clones - the pool clones the transport per connection)
+/// used for several hosts offers, each time, the host of THAT request
+#[tokio::test]
+async fn sni_follows_each_request() {
+    fixtures::tls_install_default();
+    let (client, incoming) = crate::stream::duplex::pair();
+    let transport = TlsTransportWrapper::new(DuplexTransport::new(16 * 1024, client), Arc::new(fixtures::tls_client_config()));
+    let peer = tokio::spawn(async move {
+        let mut incoming = incoming.fuse();
+        let mut seen = vec![];
+        for _ in 0..3 {
+            let Ok(Some(Ok(io))) = tokio::time::timeout(Duration::from_millis(500), incoming.next()).await else { break };
+            let acceptor = tokio_rustls::LazyConfigAcceptor::new(rustls::server::Acceptor::default(), io);
+            match tokio::time::timeout(Duration::from_millis(300), acceptor).await {
+                Ok(Ok(start)) => seen.push(start.client_hello().server_name().map(str::to_owned)),
+                _ => seen.push(Some("<not tls>".into())),
+            }
+        }
+        seen
+    });
+    let mut t1 = transport.clone();
+    let mut t2 = transport.clone();
+    let mut t3 = transport;
+    for (t, uri) in [(&mut t1, "https://example.com/"), (&mut t2, "https://other.example/"), (&mut t3, "wss://third.example:8443/")] {
+        let fut = tower::Service::call(t, parts_for(uri).unwrap());
+        let _ = tokio::time::timeout(Duration::from_millis(150), fut).await;
+    }
+    let seen = peer.await.unwrap();
+    assert_eq!(seen, vec![Some("example.com".to_string()), Some("other.example".to_string()), Some("third.example".to_string())],
+        "the server name offered must be the host of each request's own URI");
+}
